@@ -198,7 +198,11 @@ def body_io(ctx, case):
         # ---- dense reconstruction (on the lines that were just loaded into the used layout, and on fresh lines)
         from pero_ocr.core.layout import TextLine
         loaded = {l.id: l for l in l2.lines_iterator() if l.id in model and l.id != miss_id}
+        held = []       # reconstructions handed out for earlier lines: they must survive the reconstruction of later lines
         for i, (m, chars, coords, dense) in model.items():
+          if dense.shape[0] and i in loaded:
+              for arr in (loaded[i].get_dense_logits(), loaded[i].get_full_logprobs()):
+                  held.append((i, arr, np.array(arr, copy=True)))
           for tl in ([loaded[i]] if i in loaded else []) + [TextLine(id=i, logits=m)]:
               for floor in (None, case["floor"]):
                   got = tl.get_dense_logits() if floor is None else tl.get_dense_logits(floor)
@@ -213,6 +217,9 @@ def body_io(ctx, case):
                   ctx.check(np.all(np.abs(s) < 2e-5 + 1e-6 * dense.shape[1]), "full_logprobs_not_normalised", lambda: "line %r sums %r; " % (i, s) + desc())
                   dl = tl.get_dense_logits()
                   ctx.check(np.allclose(lp - lp[:, :1], dl - dl[:, :1], atol=1e-4), "full_logprobs_not_shift_of_logits", desc)
+        for i, arr, snap_ in held:
+            ctx.check(arr.shape == snap_.shape and np.array_equal(arr, snap_), "reconstruction_of_an_earlier_line_changed_by_later_ones",
+                      lambda: "line %r; " % (i,) + desc())
         only_one_side = (set(model) ^ set(ids2)) - {miss_id}
         mixed = any(0 < (d != 0).sum() < d.size for _, _, _, d in model.values())
         if len(model) >= 2 and only_one_side and mixed:
